@@ -247,6 +247,9 @@ func c19Case(f []string) (out string) {
 	switch f[0] {
 	case "wrap":
 		fr := WrapIPUDP(c19Hex(f[3]), c19IP(f[1]), c19IP(f[2]))
+		if fr == nil {
+			return "nil"
+		}
 		return c19Show(fr) + " " + c19Sum4(fr)
 	case "o82build":
 		cfg := &ip.Option82Config{CircuitIDFormat: string(c19Hex(f[3])), RemoteIDFormat: string(c19Hex(f[4])), IncludeFlags: f[1] == "1"}
@@ -356,6 +359,9 @@ func c19Case(f []string) (out string) {
 			sid = gi
 		}
 		fr := WrapIPUDP(reply, sid, net.IPv4bcast)
+		if fr == nil {
+			return "nil"
+		}
 		return c19Show(fr) + " " + c19Sum4(fr) + " gp=" + c19GP(fr[28:])
 	case "proxyreply4":
 		// proxyreply4 giaddr lease reply — proxy provider, server -> client
@@ -363,6 +369,9 @@ func c19Case(f []string) (out string) {
 		reply := StripOption82(c19Hex(f[3]))
 		reply = RewriteForProxy(reply, gi, uint32(c19U(f[2])))
 		fr := WrapIPUDP(reply, gi, net.IPv4bcast)
+		if fr == nil {
+			return "nil"
+		}
 		return fmt.Sprintf("%s %s gp=%s get=%s,%s,%s,%s", c19Show(fr), c19Sum4(fr), c19GP(fr[28:]), c19Get4(fr[28:], 54), c19Get4(fr[28:], 51), c19Get4(fr[28:], 58), c19Get4(fr[28:], 59))
 	case "pseq6":
 		// pseq6 proxyduid pref valid relayreply request — the DHCPv6 proxy's two-message sequence at function level
